@@ -127,6 +127,20 @@ MUTANTS = [
     ('graph.py', "self.inplacereplace(self.pre_subjects, zip(self.draggable_points_idxs, change['new']))", "self.inplacereplace(self.pre_subjects, zip(self.draggable_points_idxs, change['old']))", 'graph', 'drag: the reported points are written'),
     ('graph.py', "        self.subjects = self.get_subjects().copy()", "        self.subjects = list(self.get_subjects())", 'graph', 'pass'),
     ('graph.py', "return {k: i for i, k in enumerate(self.algebra.canon2bin.values())}", "return {k: i for i, k in enumerate(self.algebra.canon2bin.values(), 1)}", 'graph', 'key2idx'),
+    # power machinery: generic exponent (loop invariants over chains of unknown length)
+    ('codegen.py', "value = left_summand + right_summand", "value = left_summand * right_summand", 'powers', 'INV holds for every key after the store'),
+    ('codegen.py', "chains[value] = (*chain, value)", "chains[value] = (*chain, left_summand)", 'powers', 'stored under its own last element'),
+    ('codegen.py', "if value <= self.limit and value not in chains:", "if value <= self.limit:", 'powers', 'never overwrites'),
+    ('codegen.py', "                right_summand = chain[-1]", "                right_summand = chain[0]", 'powers', 'INV holds for every key after the store'),
+    ('codegen.py', "if value <= self.limit and value not in chains:", "if not value > self.limit and not value in chains:", 'powers', 'pass'),
+    ('codegen.py', "powers[step] = operation(powers[chain[-2]], powers[step - chain[-2]])", "powers[step] = operation(powers[chain[-1]], powers[step - chain[-2]])", 'powers', 'KeyError'),
+    ('codegen.py', "powers[step] = operation(powers[chain[-2]], powers[step - chain[-2]])", "powers[step] = operation(powers[chain[-2]], powers[chain[-2]])", 'powers', 'holds x ** (that element)'),
+    ('codegen.py', "powers[step] = operation(powers[chain[-2]], powers[step - chain[-2]])", "powers[step] = operation(powers[step - chain[-2]], powers[chain[-2]])", 'powers', 'pass'),
+    ('codegen.py', "        yield powers[step]", "        yield powers[chain[0]] if step not in powers else powers[step]", 'powers', 'pass'),
+    ('multivector.py', "        for i in range(1, power):\n            res = res.gp(x)", "        for i in range(0, power):\n            res = res.gp(x)", 'powers', 'MultiVector.__pow__/generic positive integer exponent/post'),
+    ('taperecorder.py', "        for i in range(1, power):\n            res = res.gp(x)", "        for i in range(1, power):\n            res = res.gp(x).gp(x)", 'powers', 'TapeRecorder.__pow__/generic positive integer exponent/inv-step'),
+    ('polynomial.py', "            *_, last = power_supply(self, -power)\n            return 1 / last", "            *_, last = power_supply(self, -power)\n            return last", 'powers', 'returns 1 / (self ** |n|)'),
+    ('polynomial.py', "        *_, last = power_supply(self, power)\n        return last\n\n    def __truediv__", "        first, *_ = power_supply(self, power)\n        return first\n\n    def __truediv__", 'powers', 'Polynomial.__pow__/generic positive integer exponent/post'),
 ]
 
 
@@ -181,6 +195,9 @@ def build_group(H, group):
         U.vc_compositions(H)
     elif group == 'custombasis':
         A.vc_custom_basis(H)
+    elif group == 'powers':
+        from contracts import powers_c as PW
+        PW.vc_power_supply(H); PW.vc_minimal_chains(H); PW.vc_pow_generic(H); PW.vc_poly_pow(H)
     elif group == 'graph':
         from contracts import misc_c as MC
         MC.vc_graph_refresh(H); MC.vc_graph_derived(H); MC.vc_inplacereplace(H)
